@@ -36,7 +36,7 @@ class C14(Check):
 
     def generate(self, rng, stratum, tier):
         hier = True if stratum == 'S-hier-edges' else (rng.random() < 0.35)
-        spec = models.gen_aliased(rng, hier=hier, build=rng.choice(['python', 'python', 'yaml']))
+        spec = models.gen_aliased(rng, hier=hier, build=rng.choice(['python', 'python', 'yaml']), readouts=0.4 if rng.random() < 0.35 else 0.0)
         if rng.random() < (0.9 if stratum == 'S-hier-edges' else 0.5):
             # coupling operators on edges, explicitly wired inputs (string attributes that get rescoped per level)
             models.add_edge_templates(rng, spec, p=0.9 if stratum == 'S-hier-edges' else 0.6)
@@ -79,7 +79,7 @@ class C14(Check):
                             'kw': kw})
                 if k == 'compile' and rng.random() < 0.3:
                     # an extrinsic input: attaching it must happen on the copy that is compiled, not on the template
-                    (inode, iop), iinst = rng.choice(sorted(net.inst.items()))
+                    (inode, iop), iinst = rng.choice(sorted((k_, i_) for k_, i_ in net.inst.items() if models.LIB[i_['lib']]['in']))
                     kw['step_size'] = 1e-3
                     ops[-1]['input'] = {'target': f"{inode}/{iop}/{models.LIB[iinst['lib']]['in']}", 'n': 8,
                                         'amp': rng.choice([0.5, 1.0, -0.25])}
@@ -92,7 +92,7 @@ class C14(Check):
                               'outputs': {f'o{i}': n for i, n in enumerate(net.state_names)}}
                 ops.append({'op': 'run', 'obj': 'T', 'kw': copy.deepcopy(run_kw)})
                 if rng.random() < 0.3:
-                    (inode, iop), iinst = rng.choice(sorted(net.inst.items()))
+                    (inode, iop), iinst = rng.choice(sorted((k_, i_) for k_, i_ in net.inst.items() if models.LIB[i_['lib']]['in']))
                     ops[-1]['input'] = {'target': f"{inode}/{iop}/{models.LIB[iinst['lib']]['in']}",
                                         'n': int(round(run_kw['T'] / run_kw['dt'])), 'amp': rng.choice([0.5, 1.0, -0.25])}
                 if sibling is not None and rng.random() < 0.5:
